@@ -93,6 +93,13 @@ CHECKS = {
             "default values x 23 shapes x 8 positions, type-strict comparison on the parsed element, on every other element of the tree, in serialize_json and in the "
             "executed serialize_python output; descriptions through class description, JSON and executed docstring (finding K4 for quote/backslash descriptions).",
             "parser half proved; serializers and docstring by oracle (docstring lexing is Python's own)"),
+    "C10": ("Coq theorem by induction on the element tree (Validate.build never yields Crash when float(int) and the multipleOf kernel succeed on the numbers in play; fully closed integer instance; refuted witness for K8) + binary64 (SpecFloat) correspondence on an extreme-value stream + exception-class oracle on calls and parses",
+            "C10_call_total is proved for every element tree, oracle and value over an explicit Crash outcome fed by the model of Python arithmetic (PyNum.v); "
+            "C10_integers_total has no arithmetic premise; termination is by structural recursion.  The float kernel itself (SFdiv/normalisation never producing NaN, "
+            "rounding at the float boundary) is not proved but exercised bit-exactly: Validate.build is evaluated in Coq on 10^400, 2^1024-2^970(+-1), subnormals, "
+            "-0.0 ... and must give the implementation's outcome.  Parsing totality and the interpreter's recursion budget are decided by the oracle "
+            "(generated schemas, odd code points, depth 120-150).  Fixes 2eb3576, 75e1ab7; finding K8.",
+            "full on the evaluator modulo the two arithmetic primitives (named premises); parser totality and recursion budget by oracle"),
 }
 
 REASONS_PENDING = "check under construction in this session: not yet claimed"
